@@ -43,17 +43,29 @@ func ParseIdentity(
 			return nil, err
 		}
 
-		if password != "" {
-			for _, identity := range identities {
-				if identity.PrivateKey == nil {
+		for _, identity := range identities {
+			if identity.PrivateKey == nil {
+				if password != "" {
 					return nil, config.ErrIdentityUnparsable
 				}
 
+				continue
+			}
+
+			// Unlock the key if a password has been given or if it is locked (which keys generated with an empty
+			// password are, too), so that a key which is still locked is never returned as usable
+			if password != "" || identity.PrivateKey.Encrypted {
 				if err := identity.PrivateKey.Decrypt([]byte(password)); err != nil {
 					return nil, err
 				}
+			}
 
-				for _, subkey := range identity.Subkeys {
+			for _, subkey := range identity.Subkeys {
+				if subkey.PrivateKey == nil {
+					continue
+				}
+
+				if password != "" || subkey.PrivateKey.Encrypted {
 					if err := subkey.PrivateKey.Decrypt([]byte(password)); err != nil {
 						return nil, err
 					}
